@@ -274,3 +274,43 @@ Example C15_rename_between_pop_and_rebuild_example :
   | _ => False
   end.
 Proof. exact rename_between_pop_and_rebuild_example. Qed.
+
+(* auto_transform.  build_model applies Var.transform(None) to exactly the flagged variables of the closure;
+   the flag is cleared on the ORIGINAL variable and never appears on a new one, so a second build over the
+   same variables (pop -> build, copy -> build, copy=True twice) transforms nothing.  Leaving the flag on the
+   original (seeded change C15-9) makes the next transform fail on the now weak variable. *)
+Theorem C15_auto_transform_clears_flags : forall w vs w',
+  auto_transform_all w vs = (w', Ok tt) -> forall v, In v vs -> is_auto w' v = false.
+Proof. exact auto_transform_clears_flags. Qed.
+Print Assumptions C15_auto_transform_clears_flags.
+
+Theorem C15_auto_transform_no_new_flags : forall w vs w',
+  auto_transform_all w vs = (w', Ok tt) -> forall u, is_auto w' u = true -> is_auto w u = true.
+Proof. exact auto_transform_no_new_flags. Qed.
+Print Assumptions C15_auto_transform_no_new_flags.
+
+Theorem C15_auto_transform_noop : forall vs w,
+  (forall v, In v vs -> is_auto w v = false) -> auto_transform_all w vs = (w, Ok tt).
+Proof. exact auto_transform_noop. Qed.
+Print Assumptions C15_auto_transform_noop.
+
+Example C15_auto_transform_round_trip_example :
+  match build true true true naive_topo false ex_auto [] [0] with
+  | (w1, Ok m1) =>
+    map (vname_of w1) (m_vars m1) = ["scale"; "scale_transformed"]%string /\
+    is_auto w1 0 = false /\ is_auto w1 1 = false /\
+    match build true true true naive_topo false (pop w1 m1) (popped_nodes w1 m1) (m_vars m1) with
+    | (w2, Ok m2) => List.length (m_nodes m2) = List.length (m_nodes m1) /\
+                     map (vname_of w2) (m_vars m2) = ["scale_transformed"; "scale"]%string /\
+                     List.length (w_vars w2) = List.length (w_vars w1)
+    | _ => False
+    end
+  | _ => False
+  end.
+Proof. exact auto_transform_round_trip_example. Qed.
+
+Theorem C15_auto_flag_left_on_original_refuted :
+  exists w v w1, transform_default w v = (w1, Ok tt) /\
+    snd (transform_default (setv w1 v (set_auto true)) v) = Err BadTransform.
+Proof. exact auto_flag_left_on_original_refuted. Qed.
+Print Assumptions C15_auto_flag_left_on_original_refuted.
